@@ -6,7 +6,14 @@ one JSON result per line on stdout.
     {"mode": "threads", "kind": "tcp"|"udp", "progs": [[op, …], …], "jit": [[ms, …], …], "init_ms": d}
 
 * `progs[i]`: calls of thread i, in order: serve | shutdown | shutdownT (shutdown(timeout=0.02)) | close | probe
-  (is_serving) | echo (a fresh client connects, sends one line / datagram, waits for the answer).
+  (is_serving) | echo (a fresh client connects, sends one line / datagram, waits for the answer) |
+  tstart (`NetworkServerThread(server).start()`: serve_forever runs in a thread of its own — model caller <v>, numbered
+  from n+1 —, start() waits for its private is_up event) | tjoin / tjoinT (`join()` / `join(timeout=0.02)` of the most
+  recent NetworkServerThread that has begun to run: shutdown + Thread.join) | ws (wait, at most 0.5 s, until a
+  serve_forever is parked in the request handler's service_init: makes the next call land in the start-up window
+  without relying on a jitter).
+  NetworkServerThread gets the real server behind `_LoggedServer` (a subclass of the public AbstractNetworkServer that
+  only logs and delegates): the `serve_forever` / `shutdown` calls it makes are logged as ordinary `call`/`ret` lines.
   `jit[i][k]`: sleep (ms, from the case's PRNG) before the k-th call; all threads start behind one barrier.
 * `init_ms`: the request handler's service_init sleeps that long (the close-guard window of the embedded serve_forever).
 * epilogue (thread index n = the main thread): once every other thread is either finished or inside serve_forever:
@@ -17,7 +24,10 @@ OS schedules are not controlled: this is a sampled stress run.  Lines (global or
     @up <i>                                is_up_event.set() of thread i's serve_forever (logged from the loop thread)
     @ret-close <i> open=<n>                listening sockets owned by this process right after server_close() returned
     @echo <i> <res> / @echo-start <i>      client outcome
-    @hang <i> <op> + @stack …              watchdog expiry (call pending for more than WATCHDOG seconds)
+    @call <i> tstart <v> / @ret <i> tstart <outcome> alive=<b>      NetworkServerThread.start() (alive: server thread alive)
+    @call <i> tjoin <v> / @ret <i> tjoin <outcome> alive=<b>        NetworkServerThread.join()
+    @hang <i> <op> + @stack …              watchdog expiry (call pending for more than WATCHDOG seconds; for a start()
+                                           whose server thread has ENDED: still blocked DEAD_START seconds later)
     final closed=<b>
 """
 from __future__ import annotations
@@ -33,6 +43,8 @@ import traceback
 from typing import Any
 
 WATCHDOG = float(os.environ.get("C18_WATCHDOG", "25"))
+DEAD_START = float(os.environ.get("C18_DEAD_START", "10"))    # start() still blocked that long after its server thread ended
+WS_WAIT = 0.5
 ECHO_WAIT = 10.0
 
 
@@ -40,12 +52,37 @@ def _imports():
     from vlib import core  # noqa: F401  (sys.path for the repository under test)
     global StandaloneTCPNetworkServer, StandaloneUDPNetworkServer, AsyncStreamRequestHandler, AsyncDatagramRequestHandler
     global StreamProtocol, DatagramProtocol, StringLineSerializer, BusyResourceError, ServerAlreadyRunning, ServerClosedError
+    global NetworkServerThread, _LoggedServer
+    from easynetwork.servers.abc import AbstractNetworkServer
+    from easynetwork.servers.threads_helper import NetworkServerThread
     from easynetwork.exceptions import BusyResourceError, ServerAlreadyRunning, ServerClosedError
     from easynetwork.protocol import DatagramProtocol, StreamProtocol
     from easynetwork.serializers.line import StringLineSerializer
     from easynetwork.servers.handlers import AsyncDatagramRequestHandler, AsyncStreamRequestHandler
     from easynetwork.servers.standalone_tcp import StandaloneTCPNetworkServer
     from easynetwork.servers.standalone_udp import StandaloneUDPNetworkServer
+
+    class _LoggedServer(AbstractNetworkServer):
+        """what a NetworkServerThread is given: the real server behind a proxy that logs the calls the helper makes
+        (`serve_forever(is_up_event=<its private event>)` from the new thread = model caller v, `shutdown(timeout)` from
+        the thread that calls join()) and delegates them unchanged"""
+
+        def __init__(self, run: "Run", v: int) -> None:
+            self.run, self.v = run, v
+            self.began = False
+
+        def is_serving(self) -> bool:
+            return self.run.server.is_serving()
+
+        def serve_forever(self, *, is_up_event=None) -> None:
+            self.began = True
+            self.run.lifecycle(self.v, "serve", is_up_event, reraise=True)
+
+        def server_close(self) -> None:
+            self.run.lifecycle(self.run.me(), "close", reraise=True)
+
+        def shutdown(self, timeout: float | None = None) -> None:
+            self.run.lifecycle(self.run.me(), "shutdown" if timeout is None else "shutdownT", timeout, reraise=True)
 
 
 def our_socket_inodes() -> set[str]:
@@ -78,11 +115,13 @@ def our_listeners(kind: str) -> list[int]:
 
 
 class Up:
-    def __init__(self, run: "Run", i: int) -> None:
-        self.run, self.i = run, i
+    def __init__(self, run: "Run", i: int, inner: Any = None) -> None:
+        self.run, self.i, self.inner = run, i, inner
 
     def set(self) -> None:
         self.run.log(f"@up {self.i}")
+        if self.inner is not None:
+            self.inner.set()
 
 
 class Run:
@@ -99,13 +138,27 @@ class Run:
         self.client_inodes: set[str] = set()
         init_s = case.get("init_ms", 0) / 1000.0
         token = self.token
+        self.tls = threading.local()
+        self.insetup = insetup = threading.Event()      # a serve_forever is parked in service_init
+        self.nsts: list[tuple[Any, Any]] = []           # (NetworkServerThread, its _LoggedServer), creation order
+        self.starting: dict[int, Any] = {}              # thread i is inside NetworkServerThread.start()
+        self.dead_since: dict[int, float] = {}
+        self.must_finish: set[int] = set()              # threads inside a join() that has to end without anybody's help
+        self.n_virtual = 0
 
         import asyncio
 
-        class TH(AsyncStreamRequestHandler):
-            async def service_init(self, exit_stack, server) -> None:
+        async def slow_init() -> None:
+            insetup.set()
+            try:
                 if init_s:
                     await asyncio.sleep(init_s)
+            finally:
+                insetup.clear()
+
+        class TH(AsyncStreamRequestHandler):
+            async def service_init(self, exit_stack, server) -> None:
+                await slow_init()
 
             async def handle(self, client):
                 request = yield
@@ -113,8 +166,7 @@ class Run:
 
         class UH(AsyncDatagramRequestHandler):
             async def service_init(self, exit_stack, server) -> None:
-                if init_s:
-                    await asyncio.sleep(init_s)
+                await slow_init()
 
             async def handle(self, client):
                 request = yield
@@ -130,35 +182,36 @@ class Run:
             self.lines.append(s)
 
     # ---- one call
-    def do(self, i: int, op: str) -> None:
+    def me(self) -> int:
+        return getattr(self.tls, "i", -1)
+
+    def lifecycle(self, i: int, op: str, arg: Any = None, reraise: bool = False) -> str:
+        """one real lifecycle call of caller i, bracketed by its `call` / `ret` lines"""
         srv = self.server
-        if op == "echo":
-            self.echo(i)
-            return
-        self.state[i] = (op, time.monotonic())
         self.log(f"call {i} {op}")
         out = "ok"
+        exc: BaseException | None = None
         try:
             if op == "serve":
-                srv.serve_forever(is_up_event=Up(self, i))
+                srv.serve_forever(is_up_event=Up(self, i, arg))
             elif op == "shutdown":
                 srv.shutdown()
             elif op == "shutdownT":
-                srv.shutdown(timeout=0.02)
+                srv.shutdown(timeout=0.02 if arg is None else arg)
             elif op == "close":
                 srv.server_close()
             elif op == "probe":
                 out = f"serving={int(bool(srv.is_serving()))}"
             else:
                 out = "exc:unknown-op"
-        except ServerClosedError:
-            out = "ServerClosedError"
-        except ServerAlreadyRunning:
-            out = "ServerAlreadyRunning"
-        except BusyResourceError:
-            out = "BusyResourceError"
+        except ServerClosedError as e:
+            out, exc = "ServerClosedError", e
+        except ServerAlreadyRunning as e:
+            out, exc = "ServerAlreadyRunning", e
+        except BusyResourceError as e:
+            out, exc = "BusyResourceError", e
         except BaseException as e:  # noqa: BLE001
-            out = "exc:" + type(e).__name__
+            out, exc = "exc:" + type(e).__name__, e
         extra = None
         if op == "close" and out == "ok":
             # a close that finds the portal already exited returns while the serve_forever thread is still running the
@@ -174,7 +227,80 @@ class Run:
             self.lines.append(f"ret {i} {out}")
             if extra:
                 self.lines.append(extra)
+        if reraise and exc is not None:
+            raise exc
+        return out
+
+    def do(self, i: int, op: str) -> None:
+        self.tls.i = i
+        if op == "echo":
+            self.echo(i)
+            return
+        if op == "ws":
+            hit = self.insetup.wait(WS_WAIT)
+            self.log(f"@ws {i} hit={int(hit)}")
+            return
+        if op in ("tstart", "tjoin", "tjoinT"):
+            self.helper(i, op)
+            return
+        self.state[i] = (op, time.monotonic())
+        self.lifecycle(i, op)
         self.state[i] = None
+
+    def helper(self, i: int, op: str) -> None:
+        """NetworkServerThread.start() / .join()"""
+        if op == "tstart":
+            with self.lock:
+                v = self.n + 1 + self.n_virtual
+                self.n_virtual += 1
+                proxy = _LoggedServer(self, v)
+                nst = NetworkServerThread(proxy, daemon=True, name=f"nst-{v}")
+                self.nsts.append((nst, proxy))
+        else:
+            with self.lock:
+                cands = [(t, p) for t, p in self.nsts if p.began]
+            if not cands:
+                self.log(f"@{op} {i} none")
+                return
+            nst, proxy = cands[-1]
+            v = proxy.v
+            if op == "tjoin":
+                # the server of this helper thread was up before join() is called: join() = shutdown() + Thread.join()
+                # stops it and returns by itself; the epilogue must not come to its rescue (a join() issued before the
+                # server is up may find nothing to stop and then waits for whoever stops the server: not a hang)
+                with self.lock:
+                    if f"@up {v}" in self.lines:
+                        self.must_finish.add(i)
+        self.state[i] = (op, time.monotonic())
+        self.log(f"@call {i} {op} {v}")
+        out = "ok"
+        try:
+            if op == "tstart":
+                self.starting[i] = nst
+                try:
+                    nst.start()
+                finally:
+                    self.starting.pop(i, None)
+                    self.dead_since.pop(i, None)
+            elif op == "tjoin":
+                nst.join()
+            else:
+                nst.join(timeout=0.02)
+        except BaseException as e:  # noqa: BLE001
+            out = "exc:" + type(e).__name__
+        self.log(f"@ret {i} {op} {out} alive={int(nst.is_alive())}")
+        self.must_finish.discard(i)
+        self.state[i] = None
+
+    def stuck_start(self) -> int | None:
+        """a thread still inside NetworkServerThread.start() although the server thread it waits for has ENDED more
+        than DEAD_START seconds ago: nobody else can set the helper's private event any more"""
+        now = time.monotonic()
+        for i, nst in list(self.starting.items()):
+            if nst.ident is not None and not nst.is_alive():
+                if now - self.dead_since.setdefault(i, now) > DEAD_START:
+                    return i
+        return None
 
     def echo(self, i: int) -> None:
         self.log(f"@echo-start {i}")
@@ -273,7 +399,7 @@ class Run:
             if not closed:
                 time.sleep(0.02)
         if not hang:
-            hang = self.wait_done(threads)
+            hang = self.wait_done(threads + [t for t, _ in self.nsts])
         self.log(f"final closed={int(not our_listeners(self.kind))}")
         return self.lines
 
@@ -289,12 +415,22 @@ class Run:
             with self.lock:
                 n = len(self.lines)
             now = time.monotonic()
-            if n != last_n or any(self.state.get(k) is None for k in alive):
+            joining = [k for k in alive if k in self.must_finish]
+            if n != last_n or joining or any(self.state.get(k) is None for k in alive):
                 last_n, last_t = n, now
             elif now - last_t > 0.25:
                 return False
+            for k in joining:
+                st = self.state.get(k)
+                if st is not None and now - st[1] > WATCHDOG:
+                    self.report_hang(k, st[0])
+                    return True
             if now - last_t > WATCHDOG:
                 self.report_hang(alive[0], "settle")
+                return True
+            stuck = self.stuck_start()
+            if stuck is not None:
+                self.report_hang(stuck, "tstart")
                 return True
             time.sleep(0.005)
 
@@ -305,6 +441,10 @@ class Run:
                 pend = [(i, st[0]) for i, st in list(self.state.items()) if st is not None]
                 i, op = pend[0] if pend else (-1, "join")
                 self.report_hang(i, op)
+                return True
+            stuck = self.stuck_start()
+            if stuck is not None:
+                self.report_hang(stuck, "tstart")
                 return True
             time.sleep(0.005)
         return False
